@@ -114,6 +114,35 @@ impl Scenario for C15 {
             ),
             _ => env.register(DummyTarget, (owner.clone(),)),
         };
+        // give every target real data, so that "upgrade + migrate changes nothing but the window"
+        // (checked by comparing canonical ledger hashes) is a statement about non-trivial state
+        let setup = |c: &Address, f: &str, args: &[Val]| {
+            let r = w.call(c, f, args, Auth::Setup);
+            assert!(r.ok, "setup {} failed: {}", f, r.err);
+        };
+        match c {
+            0 => {
+                let m1 = msg_scval(&Msg { chain: "c".into(), id: "1".into(), src: "s".into(), dest: 0, payload_hash: [1; 32] }, &w.sc_addr(&p[2]));
+                let m2 = msg_scval(&Msg { chain: "c".into(), id: "2".into(), src: "s".into(), dest: 0, payload_hash: [2; 32] }, &w.sc_addr(&p[2]));
+                assert!(approve(&w, &target, &keys, &set, &DOMAIN, &[m1, m2]).ok);
+                setup(&target, "validate_message", &[p[2].to_val(), to_val(env, &sstr("c")), to_val(env, &sstr("1")), to_val(env, &sstr("s")), to_val(env, &sbytes(&[1; 32]))]);
+                let next = SetSpec { signers: vec![(0, 2)], threshold: 2, nonce: 2 };
+                let proof = honest_proof(&keys, &set, &DOMAIN, &next.raw(&keys).rotation_data_hash());
+                setup(&target, "rotate_signers", &[to_val(env, &next.raw(&keys).scval()), to_val(env, &proof), w.v(false)]);
+            }
+            2 => setup(&target, "add_operator", &[p[2].to_val()]),
+            3 => {
+                setup(&target, "set_trusted_chain", &[to_val(env, &sstr("ethereum"))]);
+                let asset = env.register_stellar_asset_contract_v2(misc.clone()).address();
+                setup(&target, "register_canonical_token", &[asset.to_val()]);
+            }
+            4 => {
+                setup(&target, "mint", &[p[2].to_val(), w.v(50i128)]);
+                setup(&target, "add_minter", &[p[2].to_val()]);
+                setup(&target, "approve", &[p[2].to_val(), p[1].to_val(), w.v(7i128), w.v(w.seq() + 500)]);
+            }
+            _ => {}
+        }
         let upgrader = env.register(upgrader::Upgrader, ());
         let dummy_hash_bn = env.deployer().upload_contract_wasm(DUMMY_WASM);
         let dummy_hash = dummy_hash_bn.to_array();
@@ -308,6 +337,7 @@ fn main() {
     main_for(|tier| {
         let mut o = Opts::new(tier, if tier == "thorough" { 10 } else { 6 });
         o.min_depth = 3;
+        o.xcheck = tier == "thorough";
         o.rule = "per upgradable contract (gateway, gas service, operators, ITS, interchain token: native dispatch kept across upgrade(sha256(\"\")); plus a derive-based dummy target): all sequences over upgrade(existing / unknown hash) and migrate(well-typed / ill-typed) by {owner, other owner, stranger, nobody}, ownership transfers both ways, and Upgrader.upgrade with requested version {same, the one the new code reports, wrong} x authorisation coverage {both steps, upgrade only, migrate only, nobody, wrong principal} x migration data {well-typed, ill-typed, empty argument list}, on the dummy target also with the repository's real dummy.wasm (version changes 0.1.0 -> 0.2.0); explored to fixpoint; in every state owner(), version() and the migration window (owner-migrate on a snapshot) are compared with the model".into();
         (C15, o)
     });
